@@ -285,8 +285,15 @@ impl C15 {
         RecordBatchIterator::new(vec![Ok(b)].into_iter(), schema())
     }
 
-    /// execute one `hist` line on the real code
+    /// execute one `hist` line on the real code; a panic inside lance is reported as `Err("panic …")`
     fn hist(&mut self, t: &[&str]) -> Result<(), String> {
+        match catch_unwind(AssertUnwindSafe(|| self.hist_inner(t))) {
+            Ok(r) => r,
+            Err(e) => Err(format!("panic {}", panic_msg(e))),
+        }
+    }
+
+    fn hist_inner(&mut self, t: &[&str]) -> Result<(), String> {
         self.layout = None;
         self.scan = None;
         match t {
@@ -653,7 +660,16 @@ impl Prop for C15 {
                     res.tags.push(format!("hist:{}", rest.first().copied().unwrap_or("?")));
                     match self.hist(rest) {
                         Ok(()) => "ok".into(),
-                        Err(e) => format!("err {}", e.chars().take(80).collect::<String>().replace('\n', " ")),
+                        Err(e) => {
+                            if e.starts_with("panic") {
+                                res.failures.push(OracleFailure {
+                                    what: format!("history op `{line}`: {}", e.chars().take(200).collect::<String>()),
+                                    key: Some("history_op_panic".into()),
+                                    line: ln,
+                                });
+                            }
+                            format!("err {}", e.chars().take(80).collect::<String>().replace('\n', " "))
+                        }
                     }
                 }
                 ["ds", _stable, _n] => {
@@ -1017,8 +1033,8 @@ impl C15 {
                 }
             }
         }
-        let layout = self.real_layout().unwrap_or_default();
-        let scan = self.real_scan().unwrap_or_default();
+        let layout = catch_unwind(AssertUnwindSafe(|| self.real_layout())).unwrap_or(Err("panic".into())).unwrap_or_default();
+        let scan = catch_unwind(AssertUnwindSafe(|| self.real_scan())).unwrap_or(Err("panic".into())).unwrap_or_default();
         lines.push(format!("ds {} {}", stable as u8, layout.len()));
         for f in &layout {
             lines.push(f.line());
